@@ -745,8 +745,26 @@ impl World {
             }
         }
         let mut pos = Map::new();
+        let mut posq = Map::new();
         let mut vmap = Map::new();
         for v in self.vamms.iter() {
+            // the same positions as the engine's own Position query answers them (the interface view: a record
+            // the engine can no longer find is not a position any more, whatever the storage still holds)
+            let mut qt = Map::new();
+            for t in TRADERS.iter() {
+                let q = self.query_raw("engine", &json!({"position": {"vamm": self.a(v), "trader": self.a(t)}}));
+                let p = match q {
+                    Ok(j) if j["trader"].as_str() == Some(self.a(t).as_str()) => json!({
+                        "exists": true,
+                        "dir": if j["direction"].as_str().unwrap_or("") == "add_to_amm" {"add"} else {"rem"},
+                        "size": num(&j["size"]), "margin": num(&j["margin"]), "notional": num(&j["notional"]),
+                        "lupf": num(&j["last_updated_premium_fraction"]), "blk": num(&j["block_number"])
+                    }),
+                    _ => json!({"exists": false, "dir": "add", "size": 0, "margin": 0, "notional": 0, "lupf": 0, "blk": 0}),
+                };
+                qt.insert(t.to_string(), p);
+            }
+            posq.insert(v.clone(), Value::Object(qt));
             let mut pt = Map::new();
             for t in TRADERS.iter() {
                 let p = pos_by.get(&(v.clone(), t.to_string())).cloned().unwrap_or(json!({
@@ -783,7 +801,7 @@ impl World {
                 "whitelist": wl.as_array().map(|a| a.iter().map(|x| json!(self.nm(x.as_str().unwrap_or("")))).collect::<Vec<_>>()).unwrap_or_default(),
                 "tmp": {"swap": has_key(&raw, &lp(b"tmp-swap")), "funds": has_key(&raw, &lp(b"sent-funds")),
                         "liq": has_key(&raw, &lp(b"tmp-liquidator"))},
-                "pos": Value::Object(pos), "vmap": Value::Object(vmap),
+                "pos": Value::Object(pos), "posq": Value::Object(posq), "vmap": Value::Object(vmap),
                 "npos": npos, "pos_extra": extra
             }),
         );
